@@ -2058,8 +2058,38 @@ func main() {
 	drvOut := flag.String("drv-out", "", "output JSON file for the driver cases")
 	hsN := flag.Int("hs-n", 0, "number of driver handshake scenarios")
 	hsOut := flag.String("hs-out", "", "output JSON file for the handshake cases")
+	bankN := flag.Int("bank-n", 0, "number of banked-memory scenarios (interleaved MemCtrlFinder)")
+	bankOut := flag.String("bank-out", "", "output JSON file for the banked-memory scenarios")
+	bankRep := flag.String("bank-replay", "", "JSON file with banked-memory scenarios to run again")
 	flag.Parse()
 	log.SetOutput(io.Discard) // the controllers log before they panic
+
+	if *bankOut != "" {
+		bcs := []BCase{}
+		if *bankRep != "" {
+			data, err := os.ReadFile(*bankRep)
+			if err != nil {
+				panic(err)
+			}
+			var in []BCase
+			if err := json.Unmarshal(data, &in); err != nil {
+				panic(err)
+			}
+			for _, c := range in {
+				bcs = append(bcs, runBanked(c))
+			}
+		} else {
+			rng := vh.NewRng(*seed ^ 0xba9c)
+			for i := 0; i < *bankN; i++ {
+				bcs = append(bcs, genBanked(rng.Fork(), i))
+			}
+		}
+		data, _ := json.Marshal(bcs)
+		if err := os.WriteFile(*bankOut, data, 0o644); err != nil {
+			panic(err)
+		}
+		return
+	}
 
 	if *hsOut != "" {
 		rng := vh.NewRng(*seed ^ 0xabcd)
